@@ -377,6 +377,11 @@ impl Visit for Analyzer<'_> {
 
   fn visit_throw_stmt(&mut self, n: &ThrowStmt) {
     n.visit_children_with(self);
+    // A `throw` statement throws whatever its argument is (e.g. `throw err;`),
+    // so an enclosing `try` block may be left through its handler.
+    if matches!(self.scope.end, None | Some(End::Continue)) {
+      self.scope.may_throw = true;
+    }
     self.mark_as_end(n.start(), End::forced_throw());
   }
 
